@@ -20,7 +20,8 @@ CONF = {
     'C02': dict(
         inv=['InvC02', 'InvViews'],
         mc=[('topology', ['Submit', 'RemoveApp', 'Down', 'Up', 'RemoveServer', 'AddServer', 'Tick'], None)],
-        gen=['topology', 'tracker', 'traits', 'twins', 'identity'], probe=True,
+        gen=['topology', 'tracker', 'traits', 'twins', 'identity', 'solo'], probe=True,
+        focus=[('solo', 'gen_probe_readd'), ('affinity', 'gen_probe_readd'), ('evict2', 'gen_probe_readd')],
         rule='a history counts when a probe instance is submitted to a quiescent cell and the leaf-scan oracle finds an up server that takes it as it is; distinct = distinct environment histories'),
     'C03': dict(
         inv=['InvC03', 'InvViews'],
@@ -39,6 +40,7 @@ CONF = {
         mc=[('identity', ['Submit', 'RemoveApp', 'SetCount', 'DelGroup', 'Blacklist', 'Unblacklist', 'Down', 'Tick', 'RemoveServer', 'SetPrio'], None),
             ('base', ['Submit', 'RemoveApp', 'SetCount', 'DelGroup', 'Blacklist', 'RemoveServer', 'AddServer', 'Renew', 'Tick'], [3, 6, 1])],
         gen=['identity', 'identity', 'base'], weights=['identity', 'identity', 'pressure'],
+        focus=[('identity', 'gen_identity_chain'), ('base', 'gen_identity_chain')],
         rule='a history counts when after some cycle an instance of an identity group holds an identity; distinct = distinct environment histories'),
     'C06': dict(
         inv=['InvC06', 'InvViews'],
